@@ -217,6 +217,8 @@ def verdict(world, out):
     if last == 71:
         v = [r for r in recs if r["k"] == "violation"][-1]
         return "RESULT-INVARIANT", {"oracle": v["oracle"], "detail": v.get("detail")}
+    if last == "wall_timeout":
+        return "INCONCLUSIVE-SLOW", {"what": "harness wall limit reached before the step budget"}
     return "HARNESS", {"exit": last}
 
 
